@@ -131,6 +131,7 @@ type Exec struct {
 	refValued map[string]string // map-value components holding references -> key sort
 	pendingAlloc Term
 	refValuedTag map[string]int
+	contentOwner map[string]Term // content-map symbol -> the object it was obtained from
 	accumOf   map[string]Term // accumulator phi symbol -> allocation counter at the start of its outermost loop
 	funSigs   map[string]string
 	idxSeen   map[string]bool
@@ -141,7 +142,7 @@ type Exec struct {
 func newExec(w *World) *Exec {
 	e := &Exec{W: w, reg: newTypeReg(), declared: map[string]bool{}, compSort: map[string]string{}, compInit: map[string]Term{},
 		notes: map[string]bool{}, assumes: map[string]bool{}, abstracted: map[string]bool{}, oblNames: map[string]int{},
-		boundCalls: map[string]bool{}, accumOf: map[string]Term{}, localNames: map[string]Val{}, localAddrs: map[string]Val{}, boxOf: map[string]Term{}, boxType: map[string]types.Type{}, recursive: map[*ssa.Function]bool{}, symAt: map[string]int{}, modsMemo: map[*ssa.Function][]string{}, modsBusy: map[*ssa.Function]bool{}, trackCalled: map[string]bool{}, siteSeq: map[string]int{}}
+		boundCalls: map[string]bool{}, contentOwner: map[string]Term{}, accumOf: map[string]Term{}, localNames: map[string]Val{}, localAddrs: map[string]Val{}, boxOf: map[string]Term{}, boxType: map[string]types.Type{}, recursive: map[*ssa.Function]bool{}, symAt: map[string]int{}, modsMemo: map[*ssa.Function][]string{}, modsBusy: map[*ssa.Function]bool{}, trackCalled: map[string]bool{}, siteSeq: map[string]int{}}
 	return e
 }
 
@@ -420,6 +421,17 @@ func (e *Exec) initCompFacts(name, sort string, sym Term) {
 	}
 	if strings.HasPrefix(name, "ML_") {
 		e.assumeKeyed(sym, Eq(Select(sym, "0"), "0"), "nil map has length 0")
+	}
+	if strings.HasPrefix(name, "MV_") {
+		// canonical values: the nil map reads as the zero value everywhere
+		inner := elemSortOfArray(sort) // (Array K V)
+		if i := strings.LastIndex(inner, " "); i > 0 {
+			vs := strings.TrimSuffix(inner[i+1:], ")")
+			switch vs {
+			case "Bool", "Int", "Real", "String", "Any", "Slice":
+				e.assumeKeyed(sym, Eq(Select(sym, "0"), fmt.Sprintf("((as const %s) %s)", inner, zeroOfSort(vs))), "nil map reads as zero values")
+			}
+		}
 	}
 	if ks, ok := e.refValued[name]; ok && e.pendingAlloc != "" {
 		// every reference stored in a map is an allocated one
@@ -805,7 +817,8 @@ func (e *Exec) refBound(s *State, v Val) {
 		}
 		e.assume(app("<=", v.Term, e.allocCtr(s)), "")
 	} else if _, ok := unalias(v.T).Underlying().(*types.Slice); ok {
-		e.assume(app("<=", app("s_base", v.Term), e.allocCtr(s)), "")
+		e.assume(And(app("<=", app("s_base", v.Term), e.allocCtr(s)), app(">=", app("s_base", v.Term), "0"), app(">=", app("s_len", v.Term), "0"),
+			app(">=", app("s_off", v.Term), "0"), app(">=", app("s_cap", v.Term), app("s_len", v.Term))), "")
 	}
 }
 
@@ -887,8 +900,9 @@ type deferInfo struct {
 }
 
 type rangeInfo struct {
-	x    Val
+	x     Val
 	isMap bool
+	dom0  Term // key set of the map when the iteration started
 }
 
 type loopInfo struct {
